@@ -9,8 +9,8 @@ verus! {
 broadcast use {nid::ax_id_eq, nid::ax_id_cmp, nid::ax_id_obeys_eq, nid::ax_id_obeys_cmp, nid::ax_id_obeys_partial_cmp, nid::ax_id_partial_cmp};
 
 // ---- more trusted environment, specific to this unit --------------------------------------------
-#[verifier::external_body]
-pub struct ColumnTy { _p: core::marker::PhantomData<u8> }
+//@ idtype BaseValueId
+//@ item egglog-bridge/src/lib.rs enum ColumnTy derive Clone,Copy
 #[verifier::external_body]
 pub struct CachedPlan { _p: core::marker::PhantomData<u8> }
 pub mod core_relations {
@@ -95,7 +95,7 @@ pub mod rule {
 //@ item egglog-bridge/src/lib.rs struct RuleInfo
 //@ item egglog-bridge/src/lib.rs struct CachedPlanInfo
 //@ item egglog-bridge/src/lib.rs struct FunctionInfo only table
-//@ item egglog-bridge/src/lib.rs struct EGraph only db uf_table timestamp_counter rules funcs panic_message report_level
+//@ item egglog-bridge/src/lib.rs struct EGraph only db uf_table id_counter timestamp_counter rules funcs panic_message report_level
 //@ item egglog-reports/src/lib.rs struct IterationReport
 
 // ---------------- specification ------------------------------------------------------------------
@@ -175,6 +175,35 @@ impl EGraph {
 //@ ret r
 //@ at sig
         ensures r.ix() == self.ts(),
+//@ end-fn
+
+//@ fn fresh_id
+//@ ret r
+//@ at sig
+        // ids are handed out in increasing order: the fresh id is the previous value of the id counter
+        ensures
+            r.ix() == old(self).db.counter(old(self).id_counter),
+            final(self).db.counter(final(self).id_counter) == old(self).db.counter(old(self).id_counter) + 1,
+            final(self).same_shape(old(self)),
+//@ end-fn
+
+//@ fn get_canon_in_uf
+//@ ret r
+//@ rewrite R-CLOSANN 0 Row Value
+//@ at sig
+        requires self.wf(),
+        // C01: what `check` / `extract` use to compare ids is the union-find's representative
+        ensures r == self.db.canon(val),
+//@ at closure 0 spec
+            requires row.vals@.len() == 3
+            ensures r == row.vals@[1]
+//@ end-fn
+
+//@ fn get_canon_repr
+//@ ret r
+//@ at sig
+        requires self.wf(),
+        ensures r == (if ty is Id { self.db.canon(val) } else { val }),
 //@ end-fn
 
 //@ fn inc_ts
